@@ -50,6 +50,17 @@ def judge(ctx, res, w, replay_saved=True):
         if total != 1:
             ctx.violation('recording finalised %d times (save=%d, abort=%d); must be exactly once' % (total, f['save'], f['abort']), dict(w, fin=f))
         ctx.count('finalisations_checked')
+    if getattr(res.box, 'kind', None) == 'file':
+        # "whole or not at all" as the store shows it: every file in the cassette directory is a complete, decodable recording
+        import json as _json
+        for name, content in res.box.snapshot().items():
+            ctx.count('stored_files_checked')
+            try:
+                _json.loads(content.decode('utf-8'))
+            except Exception:
+                ctx.violation('the file cassette directory holds a file that is not a whole recording (%d bytes) after this run' % len(content),
+                              dict(w, file=name[:60], save_failed=any(e[0] == 'save_failed' for e in res.spy_events)))
+                break
     cf = capture_failed(res)
     saves = [e for e in res.spy_events if e[0] == 'save']
     failed = [e for e in res.spy_events if e[0] == 'save_failed']
